@@ -210,7 +210,9 @@ prop("C04", ["prims.go", "c04.go"],
       run("kill-world", "harnessC04world", ["connected", "graceful", "forced", "already-dead", "repeated", "overlapping-kill", "client-failed-before-kill"], files=WORLD,
           quick={"bound": "host x plugin composed, net/rpc and gRPC, both launch methods; plugin shutdown behaviour in {exits at once, exits after a symbolic clean-up time d <= 10 s, acknowledges but never exits, frozen (SIGSTOP), already crashed}; call pattern: one Kill, a repeated Kill, and a second Kill from another goroutine at a symbolic instant in [first Kill, +6 s]; also the history Start, plugin freezes or crashes, Client() (fails for net/rpc), Kill"}),
       run("cleanup-clients", "harnessC04cleanup", ["cleaned-up"], files=WORLD,
-          quick={"bound": "CleanupClients over two managed clients (protocols free): the second healthy, ignoring the request, or never started"})],
+          quick={"bound": "CleanupClients over two managed clients (protocols free): the second healthy, ignoring the request, or never started"}),
+      run("never-started", "harnessC04neverStarted", ["launch-failed", "concurrent-kill", "killed"], files=WORLD,
+          quick={"bound": "the launch itself fails: fork/exec fails under the real CmdRunner (cmd.Process stays nil), the custom runner's Start fails, or RunnerFunc returns an error; reached through Start or Client; then Kill from two goroutines at once, two more Kills, CleanupClients"})],
      [PROC, BUFIO, CTX, GRPCSEAM, "a unary gRPC call returns when answered, when its context is done, or with Unavailable when the connection is dead - and blocks otherwise", "yamux keep-alive: a net/rpc call to a peer that stopped answering fails after at most 40 s (default yamux configuration)"] + WORLD_ASSUME,
      WORLD_STUBS,
      "reattached clients (C15); more than two overlapping Kill calls; schedules of overlapping Kills other than those induced by their start instants (canonical scheduler with symbolic time)",
